@@ -305,7 +305,7 @@ A3 = [0.0, 0.9553166181245093, float(np.pi / 2)]     # 0, magic angle, 90 degree
 OPTIONS = {
     'inverse': {
         'basex': [{}, {'sigma': 2.0}, {'sigma': 3.0}, {'reg': 1.0}, {'reg': 100.0}, {'correction': False},
-                  {'sigma': 2.0, 'reg': 10.0}],
+                  {'sigma': 2.0, 'reg': 10.0}, {'sigma': 2.0, 'correction': False}],
         'daun': [{'degree': 0}, {'degree': 1}, {'degree': 2}, {'degree': 3},
                  {'degree': 0, 'reg': 1.0}, {'degree': 1, 'reg': ('diff', 1.0)}, {'degree': 1, 'reg': ('L2', 1.0)},
                  {'degree': 2, 'reg': ('L2c', 1.0)}, {'degree': 3, 'reg': ('diff', 10.0)},
@@ -320,7 +320,7 @@ OPTIONS = {
                    {'reg': ('diff', 10.0)}, {'reg': ('SVD', 0.05)}, {'reg': 'pos'}, {'origin': 'tuple'}],
     },
     'forward': {
-        'basex': [{}, {'sigma': 2.0}, {'correction': False}],
+        'basex': [{}, {'sigma': 2.0}, {'correction': False}, {'sigma': 2.0, 'correction': False}],
         'daun': [{'degree': 0}, {'degree': 1}, {'degree': 2}, {'degree': 3}],
         'direct': [{}, {'correction': False}, {'r': 'grid'}],
         'hansenlaw': [{'hold_order': 0}, {'hold_order': 1}],
